@@ -1,5 +1,5 @@
 ID = 'C11'
-UNITS = {'enc': dict(wrap='wrap.cc')}
+UNITS = {'enc': dict(wrap='wrap.cc', new_block=64, per_harness={'h_b64dec.c': {'new_block': 320}})}
 BOUNDS = 'base64_decode: every input of length 0..8 over all 256 byte values, both alphabets'
 STUBS = []
 OUTSIDE = []
@@ -12,4 +12,9 @@ def queries(tier):
                        unwindset='', timeout=300, mem_gb=6,
                        desc='base64_decode on %d symbolic bytes, symbolic alphabet choice: throws invalid_argument iff not RFC-4648-valid, else bytes equal reference decoder' % n,
                        bounds='input length == %d, all byte values' % n))
+    for which, nm in ((0, 'quotes'), (1, 'controls'), (2, 'url')):
+      for L in ([0, 1, 2] if tier == 'quick' else [0, 1, 2, 3]):
+        qs.append(dict(name='escape_%s_len%d' % (nm, L), unit='enc', harness='h_escape.c', defs={'WHICH': which, 'LEN': L}, unwind=4 * L + 14,
+                       timeout=900, mem_gb=8, desc='escape_%s on %d symbolic bytes (all 256 values): alphabet restriction and independent unescaper inverts' % (nm, L),
+                       bounds='input length == %d' % L))
     return qs
